@@ -184,6 +184,23 @@ fn c15_prune_after_reinsert() -> bool {
     res.2 == 1 && left.len() == 1
 }
 
+/// C12: a node that holds only wildcard records in the first file keeps them when a later file defines the node itself.
+fn c12_wildcard_only_node_merge() -> bool {
+    let apex = dn("example.com.");
+    let mut z1 = Zone::new(apex.clone(), None);
+    z1.insert_wildcard(&dn("lan.example.com."), a_data("10.0.0.1"), 300);
+    let mut z2 = Zone::new(apex.clone(), None);
+    z2.insert(&dn("lan.example.com."), a_data("10.0.0.2"), 300);
+    let mut zones = Zones::new();
+    zones.insert_merge(z1);
+    zones.insert_merge(z2);
+    let r = zones.get(&apex).unwrap().resolve(&dn("printer.lan.example.com."), QueryType::Record(RecordType::A));
+    println!("input: file 1 `*.lan.example.com. A 10.0.0.1`, file 2 `lan.example.com. A 10.0.0.2`, merged; question printer.lan.example.com. A");
+    println!("required: the wildcard of file 1 still answers (one A record)");
+    println!("observed: {r:?}");
+    matches!(r, Some(ZoneResult::Answer { rrs }) if rrs.len() == 1)
+}
+
 /// C09 (answer section holds only records for the question name or its CNAME chain) / C10: a question beneath a delegation point of an
 /// authoritative zone, resolved without recursion (RD clear or authoritative-only mode), is a referral: the NS records of the
 /// delegation point are not records for the question name and must not be handed to the server as answer records.
@@ -246,6 +263,7 @@ fn main() {
         "c15_prune_after_reinsert" => c15_prune_after_reinsert(),
         "c09_referral_in_answer_section" => c09_referral_in_answer_section(),
         "c03_pointer_into_own_name" => c03_pointer_into_own_name(),
+        "c12_wildcard_only_node_merge" => c12_wildcard_only_node_merge(),
         _ => {
             eprintln!("unknown witness `{w}`");
             exit(2)
